@@ -22,6 +22,7 @@ LEVEL_TEXT = ('Decides, for all paths / all cursor implementations: each primiti
               'configuration layers are applied in the documented order. The metamorphic relation on concrete texts is not '
               'decided.')
 TECHNIQUE += '; next_token guard contract over cursor states'
+TECHNIQUE += '; token matchers also interpreted on texts holding characters whose case mappings change the length of the text (C09.R2b)'
 LEVEL_NOTE = ('Abstraction for the next_token model: the three skip regexes match disjoint, maximal runs (each eat_* '
               'consumes the whole run of its kind and reports whether it consumed anything).')
 EXPLANATION = ('Static analysis of /repo sources, TatSu not imported. Primitives are executed abstractly with flags '
